@@ -15,15 +15,16 @@ import (
 	"github.com/alicebob/miniredis/v2"
 	red "github.com/go-redis/redis/v8"
 	"github.com/gotid/god/internal/verifdrv"
+	"github.com/gotid/god/internal/verifdrv/c12raw"
 	"github.com/gotid/god/lib/logx"
 	"github.com/gotid/god/lib/store/cache"
 	"github.com/gotid/god/lib/store/redis"
 )
 
 type verifOp struct {
-	M    string           `json:"m"`
-	Form string           `json:"form"` // ctx | plain | canceled
-	A    verifdrv.C12Args `json:"a"`
+	M    string         `json:"m"`
+	Form string         `json:"form"` // ctx | plain | canceled
+	A    c12raw.C12Args `json:"a"`
 }
 
 type verifCase struct {
@@ -33,7 +34,7 @@ type verifCase struct {
 	Ops     []verifOp `json:"ops"`
 }
 
-func verifPairs(a verifdrv.C12Args, i int) []redis.Pair {
+func verifPairs(a c12raw.C12Args, i int) []redis.Pair {
 	var out []redis.Pair
 	for _, p := range a.Scored(i) {
 		out = append(out, redis.Pair{Member: p.M, Score: int64(p.S)})
@@ -42,9 +43,9 @@ func verifPairs(a verifdrv.C12Args, i int) []redis.Pair {
 }
 
 // verifWrap calls Store method m (named by its context form) in the requested form.
-func verifWrap(s Store, ctx context.Context, plain bool, m string, a verifdrv.C12Args) (val any, err error, ok bool) {
+func verifWrap(s Store, ctx context.Context, plain bool, m string, a c12raw.C12Args) (val any, err error, ok bool) {
 	ok = true
-	zero := verifdrv.C12Zero{}
+	zero := c12raw.C12Zero{}
 	switch m {
 	case "DecrCtx":
 		if plain {
@@ -66,9 +67,9 @@ func verifWrap(s Store, ctx context.Context, plain bool, m string, a verifdrv.C1
 		}
 	case "EvalCtx":
 		if plain {
-			val, err = s.Eval(verifdrv.C12Lua[a.N(0)], a.S(1), a.Anys(2)...)
+			val, err = s.Eval(c12raw.C12Lua[a.N(0)], a.S(1), a.Anys(2)...)
 		} else {
-			val, err = s.EvalCtx(ctx, verifdrv.C12Lua[a.N(0)], a.S(1), a.Anys(2)...)
+			val, err = s.EvalCtx(ctx, c12raw.C12Lua[a.N(0)], a.S(1), a.Anys(2)...)
 		}
 	case "ExistsCtx":
 		if plain {
@@ -482,8 +483,8 @@ func verifWrap(s Store, ctx context.Context, plain bool, m string, a verifdrv.C1
 	return
 }
 
-func verifJSON(xs ...any) verifdrv.C12Args {
-	out := verifdrv.C12Args{}
+func verifJSON(xs ...any) c12raw.C12Args {
+	out := c12raw.C12Args{}
 	for _, x := range xs {
 		b, _ := json.Marshal(x)
 		out = append(out, b)
@@ -493,14 +494,14 @@ func verifJSON(xs ...any) verifdrv.C12Args {
 
 // verifRawCall: the documented go-redis counterpart of a Store method (via the redis wrapper's table):
 // same name and arguments, except HSetNx -> HSetNX, Eval's key -> KEYS=[key], HDel's field -> [field].
-func verifRawCall(m string, a verifdrv.C12Args) (string, verifdrv.C12Args) {
+func verifRawCall(m string, a c12raw.C12Args) (string, c12raw.C12Args) {
 	switch m {
 	case "HSetNxCtx":
 		return "HSetNXCtx", a
 	case "EvalCtx":
-		return "EvalCtx", verifdrv.C12Args{a[0], verifJSON([]string{a.S(1)})[0], a[2]}
+		return "EvalCtx", c12raw.C12Args{a[0], verifJSON([]string{a.S(1)})[0], a[2]}
 	case "HDelCtx":
-		return "HDelCtx", verifdrv.C12Args{a[0], verifJSON([]string{a.S(1)})[0]}
+		return "HDelCtx", c12raw.C12Args{a[0], verifJSON([]string{a.S(1)})[0]}
 	}
 	return m, a
 }
@@ -555,10 +556,10 @@ func verifKV(c verifCase) any {
 			continue
 		}
 		rm, ra := verifRawCall(op.M, op.A)
-		rv, re, _, _ := verifdrv.C12Raw(raw, ctx, rm, ra)
+		rv, re, _, _ := c12raw.C12Raw(raw, ctx, rm, ra)
 		steps = append(steps, map[string]any{
-			"w":   map[string]any{"v": verifdrv.C12Val(verifdrv.C12Canon(op.M, wv)), "e": verifdrv.C12Err(we)},
-			"r":   map[string]any{"v": verifdrv.C12Val(verifdrv.C12Canon(op.M, rv)), "e": verifdrv.C12Err(re)},
+			"w":   map[string]any{"v": c12raw.C12Val(c12raw.C12Canon(op.M, wv)), "e": c12raw.C12Err(we)},
+			"r":   map[string]any{"v": c12raw.C12Val(c12raw.C12Canon(op.M, rv)), "e": c12raw.C12Err(re)},
 			"brk": "n/a", "xw": "", "xr": "",
 		})
 	}
@@ -569,7 +570,7 @@ func verifKV(c verifCase) any {
 			placement[k] = i
 		}
 	}
-	return map[string]any{"steps": steps, "dump_w": verifdrv.C12Dump(shards...), "dump_r": verifdrv.C12Dump(sr), "placement": placement}
+	return map[string]any{"steps": steps, "dump_w": c12raw.C12Dump(shards...), "dump_r": c12raw.C12Dump(sr), "placement": placement}
 }
 
 func TestVerifDriver(t *testing.T) {
